@@ -6,7 +6,7 @@
    record holds exactly the images of its group's attribute values.  "Conflict iff raise"
    is established by the correspondence run and the independent merge oracle (partial). *)
 From Coq Require Import String List Arith ZArith.
-From Prov Require Import Str Sexp Tables Nsm Values Record World Interp InterpProofs NsmProofs RecordProofs UnifyProofs IdemProofs ReaddProofs.
+From Prov Require Import Str Sexp Tables Nsm Values Record World Interp InterpProofs NsmProofs RecordProofs UnifyProofs IdemProofs ReaddProofs GoodProofs.
 Import ListNotations.
 Open Scope string_scope.
 
@@ -77,6 +77,14 @@ Example C08_good_rec_example :
                (exq "k", [VInt 5%Z; VQn (exq "v"); VLit "abc" (Some (xsd_qn "dateTime")) None])] in
   forall p, In p (attributes r0) -> good_pair [] p.
 Proof. exact good_pairs_example. Qed.
+
+(* the same without hypothesis for every container of every reachable world *)
+Theorem C08_attributes_reachable : forall ft ops c b u,
+  let w := wrun ft ops in
+  get_cont w c = Some b -> unified_records (wft w) b = OK u ->
+  Forall2 (fun r o => o = r \/ merged_of r (tl (filter (same_group r) (brecs b))) o) (fst (first_fold (brecs b))) u.
+Proof. exact reachable_unified_attributes. Qed.
+Print Assumptions C08_attributes_reachable.
 
 (* not proved: a conflict on a formal attribute raises ProvException iff two members disagree on it
    (computed below on an example; decided per run by the merge oracle) *)
